@@ -201,6 +201,20 @@ theorem C20_clone (cl : α → α) (eqα : α → α → Bool) (t : TD α) (h : 
     rw [sliceEq_map_clone eqα cl hcl]
     simp
 
+/-- `clone_from` (the derive keeps the trait default `*self = source.clone()`): on success the array is the clone of the source
+    (C20_clone); if an element's `clone` panics the array is untouched — in both outcomes the shape invariant holds (C11) -/
+theorem C20_clone_from (cl : α → α) (t src : TD α) (h : t.Inv) (hs : src.Inv) (fault : Option Nat) :
+    (t.cloneFrom cl src fault).1.Inv ∧
+    ((t.cloneFrom cl src fault).2.2 = .ok () → (t.cloneFrom cl src fault).1 = src.clone cl ∧ (t.cloneFrom cl src fault).2.1 = t.data) ∧
+    ((t.cloneFrom cl src fault).2.2 ≠ .ok () → (t.cloneFrom cl src fault).1 = t) := by
+  have hc := (C20_clone cl (fun _ _ => true) src hs).1
+  cases fault with
+  | none => simp [TD.cloneFrom, hc]
+  | some k =>
+    by_cases hk : k < src.data.length
+    · simp [TD.cloneFrom, hk, h]
+    · simp [TD.cloneFrom, hk, hc]
+
 /-- converting into a `Vec`, a boxed slice or a by-value iterator yields the cells in row-major order: item number `r*C + c` is
     cell `(c,r)`, there are `C*R` items, and the by-value iterator behaves as the ideal sequence over them -/
 theorem C20_into (t : TD α) (h : t.Inv) :
